@@ -91,6 +91,27 @@ def own_cut(L, R, pv, a):
     return (float(L[i]), float(R[i]))
 
 
+def equal_weight_problem(focal, outL, outR, steps, plo, phi):
+    """independent reference for 'stacking with equal weights': at grid level p_i (the exact rational grid plo + i*(phi-plo)/(steps-1)) the left
+    bound is the k-th smallest lower end and the right bound the k-th smallest upper end of the N focal intervals, k = ceil(p_i * N). Where p_i * N is
+    an integer the float sums of the implementation may land on either side, so k+1 is accepted as well - except at level 0 when the mass 1/N is added
+    at most twice (N = 1000 or 2000 for the default grid), which floats do exactly."""
+    from fractions import Fraction as Fr
+    N = len(focal)
+    lows, highs = sorted(a for a, _ in focal), sorted(b for _, b in focal)
+    for i in range(steps):
+        t = (Fr(plo) + (Fr(phi) - Fr(plo)) * Fr(i, steps - 1)) * N
+        k = max(1, math.ceil(t))
+        ks = [k]
+        if t == k and not (i == 0 and k <= 2) and k < N:
+            ks.append(k + 1)
+        k0 = min(k, N)
+        if outL[i] not in [lows[min(j, N) - 1] for j in ks] or outR[i] not in [highs[min(j, N) - 1] for j in ks]:
+            return (f"step {i} (level {float(Fr(plo) + (Fr(phi) - Fr(plo)) * Fr(i, steps - 1))}) is [{outL[i]}, {outR[i]}]; with {N} equally weighted focal intervals it is the "
+                    f"{k0}-th smallest lower / upper end [{lows[k0 - 1]}, {highs[k0 - 1]}]")
+    return None
+
+
 def body(chk):
     from pyuncertainnumber import pba
     from pyuncertainnumber.pba.params import Params
@@ -135,7 +156,19 @@ def body(chk):
             sname = ["direct", "endpoints", "direct"][n_cases - 1 - it]
             coq_strat, kw = STRATS[sname]
             dep_spec = gen_dep(rng, d)
-            n = 400 if d == 1 else (1500 if d == 2 else 600)
+            n = 1000 if d == 1 else (2000 if d == 2 else 1000)     # multiples of 1000: a cumulated mass then meets the first grid level exactly
+        elif it == n_cases - 4:
+            # as many slices as make k^d = 1000 boxes
+            method, api, sname, n = "slicing", "function", "direct", (1000 if d == 1 else 10)
+            if d == 2:
+                d, kinds = 3, kinds + [rng.choice(["P", "D"])]
+                vspec = [gen_var(rng, k) for k in kinds]
+                e = g13.gen_expr(rng, d, 1)
+                while g13.high_pow(e):
+                    e = g13.gen_expr(rng, d, 1)
+                f, src = g13.make_func(e)
+            coq_strat, kw = STRATS[sname]
+            dep_spec = None
         site = f"{method}:{api}:{sname}:{''.join(kinds)}" + (f":{dep_spec['family']}" if dep_spec else "")
         replay = {"kind": "oracle", "vars": vspec, "function": g13.py_src(e), "strategy": sname, "method": method, "api": api, "n": n, "seed": seed, "dependency": dep_spec}
         chk.count(f"{method}-{api}-{sname}-d{d}" + ("-dep" if dep_spec else ""), key=(str(vspec), g13.py_src(e), sname, method, api, n, seed, str(dep_spec)))
@@ -216,7 +249,10 @@ def body(chk):
             bad = next((x for x in focal if x not in exp_focal), focal[0])
             chk.report(site + ":focal", f"the focal intervals handed to stacking are not the images of the alpha-cut boxes at the {'grid' if method == 'slicing' else 'sampled'} levels "
                        f"(e.g. {bad}; {len(set(focal) - set(exp_focal))} of {len(focal)} differ)", replay)
-        # (c) the result is the equal-weight mixture of those images
+        # (c) the result is the equal-weight mixture of those images: an independent order-statistic reference, then the library's own stacking
+        why = equal_weight_problem(exp_focal, out[1], out[2], len(pv), "0.001", "0.999") if (len(pv) == 200 and pv[0] == 0.001 and pv[-1] == 0.999) else None
+        if why:
+            chk.report(site + ":equal-weights", "the returned p-box is not the equal-weight stack of the interval images of the alpha-cut boxes: " + why, replay)
         try:
             ref = stacking([pba.I(*y) for y in exp_focal])
             if not (np.array_equal(np.asarray(ref.left, float), out[1]) and np.array_equal(np.asarray(ref.right, float), out[2])):
